@@ -39,8 +39,8 @@ def main():
     doc = {
         "version": 1,
         "setup_cmd": "python3 tools/selfcheck.py",
-        "hooks": {"guard": "cfg(kani) (set only by cargo-kani inside scratch copies; /repo is never edited)",
-                  "enable": "checks copy /repo's working tree to a scratch directory and append `#[cfg(kani)] mod verif_*;` overlays there; Verus units are extracted mechanically into a single file",
+        "hooks": {"guard": "cfg(kani) for Kani overlays; cfg(hpbf_verif_dump) / cfg(hpbf_verif_replay) / cfg(hpbf_verif_native) for the native stages (all set only inside scratch copies; /repo is never edited, no hook is committed there)",
+                  "enable": "checks copy /repo's working tree to a scratch directory and append `#[cfg(kani)] mod verif_*;` (resp. `#[cfg(all(test, hpbf_verif_*))] mod verif_*;`) overlays there; Verus units are extracted mechanically into a single file",
                   "baseline_off_cmd": "cd /repo && cargo test --workspace --no-fail-fast --offline",
                   "source_commits": [], "add_only": True},
         "engines": [{"name": "contracts", "path": "bin/check",
